@@ -98,6 +98,10 @@ def norm_outcome(text, r, uidmap):
     """Normalised outcome of one IMAP command: what the model speaks about."""
     st = r.status
     if st not in ("OK", "NO", "BAD"):
+        if any(x.kind == "status" and x.status == "BYE" for x in r.responses):
+            # the server said good-bye (selected mailbox deleted underneath):
+            # a legal completion, and like NO/BAD the command was not executed
+            return ("REFUSED", "BYE")
         return (st,)
     if st != "OK":
         return ("REFUSED",)  # NO and BAD alike: refused, and (checked through the final state) without effect
@@ -198,8 +202,11 @@ async def run_session(rig, idx, where, cmds, k, results, uidmap, order_log):
             r = await s.cmd(c)
         order_log.append((idx, c))
         outs.append(norm_outcome(c, r, uidmap) + ((f"latency>{int(r.latency)}",) if (r.latency or 0) >= 60 else ()))
-        if c == "CLOSE" and r.ok:
-            pass
+        if outs[-1] == ("REFUSED", "BYE"):
+            rig.bye_sessions.add(s.name)
+            outs[-1] = ("REFUSED",)
+            outs.extend([("REFUSED",)] * (len(cmds) - j - 1))
+            break
     results[idx] = outs
 
 
@@ -213,6 +220,7 @@ async def one_run(loop, ctx, cmdset, mode, order=None):
     try:
         cids, table = await setup_state(rig)
         rig.sessions_by_idx = {}
+        rig.bye_sessions = set()
         for idx, (where, cmds) in enumerate(cmdset):
             if where == "pop3":
                 continue
@@ -255,31 +263,75 @@ async def one_run(loop, ctx, cmdset, mode, order=None):
                     box = c.split()[1]
                     m = msg_for_append(k, idx * 10 + pos[idx] - 1)
                     r = await s.cmd(b"APPEND " + box.encode() + b" {%d+}\r\n" % len(m) + m)
-                elif c.startswith("MOVESTEP1 "):
-                    r = await s.cmd("UID COPY " + c.split(" ", 1)[1])
-                    outs[idx].append(("HALF", r))
+                elif c.startswith("XREAD "):
+                    # documented step 1 of COPY/MOVE: read the source
+                    if s.name in rig.bye_sessions:
+                        outs[idx].append(("XSTATE", None, "REFUSED"))
+                        continue
+                    _, uset, dst = c.split(" ", 2)
+                    r = await s.cmd(f"UID FETCH {uset} (UID FLAGS INTERNALDATE BODY.PEEK[])")
+                    if r.status != "OK":
+                        if any(x.kind == "status" and x.status == "BYE" for x in r.responses):
+                            rig.bye_sessions.add(s.name)
+                        outs[idx].append(("XSTATE", None, "REFUSED"))
+                        continue
+                    rows = [(d["UID"], [f for f in d.get("FLAGS", []) if f not in ("\\Recent", "unseen")], d.get("INTERNALDATE"), bytes(d.get("BODY[]") or b"")) for n, d in sorted(r.fetches(), key=lambda t: t[0]) if "UID" in d and "BODY[]" in d]
+                    outs[idx].append(("XSTATE", rows, dst))
                     continue
-                elif c.startswith("MOVESTEP2 "):
-                    half = outs[idx].pop()
-                    r1 = half[1]
-                    code = r1.tagged.code or "" if r1.tagged else ""
-                    mm = re.match(r"COPYUID \d+ (\S*) (\S*)", code + " ")
-                    src = mm.group(1) if mm and mm.group(1) else None
-                    if r1.ok and src:
-                        await s.cmd(f"UID STORE {src} +FLAGS.SILENT (\\Deleted)")
-                        await s.cmd(f"UID EXPUNGE {src}")
-                    oc = norm_outcome("UID COPY x", r1, uidmap)
-                    outs[idx].append(("OK", "MOVE", oc[2]) if oc[0] == "OK" and len(oc) > 2 else oc)
+                elif c.startswith("XADD"):
+                    st_ = outs[idx][-1]
+                    if st_[1] is None:
+                        continue
+                    if s.name in rig.bye_sessions:
+                        outs[idx][-1] = ("XSTATE", None, "REFUSED")
+                        continue
+                    ok = True
+                    for uid, fl, idate, body in st_[1]:
+                        ra = await s.cmd(b"APPEND " + st_[2].encode() + b" (" + " ".join(fl).encode() + b') "' + idate.encode() + b'" {%d+}\r\n' % len(body) + body)
+                        if ra.status != "OK":
+                            ok = False
+                            break
+                    if not ok:
+                        outs[idx][-1] = ("XSTATE", None, "REFUSED")
+                    continue
+                elif c.startswith("XDONE "):
+                    st_ = outs[idx].pop()
+                    verb = c.split()[1]
+                    if st_[1] is None:
+                        outs[idx].append(("REFUSED",))
+                        continue
+                    src = [u for u, _, _, _ in st_[1]]
+                    if verb == "MOVE" and src:
+                        if s.name in rig.bye_sessions:
+                            outs[idx].append(("REFUSED",))
+                            continue
+                        us = ",".join(map(str, src))
+                        r2 = await s.cmd(f"UID STORE {us} +FLAGS.SILENT (\\Deleted)")
+                        if r2.status == "OK":
+                            await s.cmd(f"UID EXPUNGE {us}")
+                        else:
+                            if any(x.kind == "status" and x.status == "BYE" for x in r2.responses):
+                                rig.bye_sessions.add(s.name)
+                            outs[idx].append(("REFUSED",))
+                            continue
+                    outs[idx].append(("OK", verb, tuple(src)))
                     continue
                 else:
+                    if s.name in rig.bye_sessions:
+                        outs[idx].append(("REFUSED",))
+                        continue
                     r = await s.cmd(c)
-                outs[idx].append(norm_outcome(c, r, uidmap))
+                oc = norm_outcome(c, r, uidmap)
+                if oc == ("REFUSED", "BYE"):
+                    rig.bye_sessions.add(s.name)
+                    oc = ("REFUSED",)
+                outs[idx].append(oc)
             results = outs
         await rig.settle()
         fs = await final_state(rig)
         info["watchdog"] = len(rig.watchdog_hits)
         info["wire"] = len(rig.wire_errors)
-        info["closed"] = [s.name for s in rig.sessions if s.writer.closed and not s.name.startswith(("Z", "O"))]
+        info["closed"] = [s.name for s in rig.sessions if s.writer.closed and not s.name.startswith(("Z", "O")) and s.name not in rig.bye_sessions]
         info["log"] = [x[2][:160] for x in rig.log_records[-3:]]
         return results, fs, info
     finally:
@@ -302,18 +354,21 @@ def sequential_orders(cmdset, split_moves):
 
 
 def with_split_moves(cmdset):
+    """COPY / MOVE as their documented steps: read the source; add to the
+    destination; (MOVE) remove from the source."""
     out = []
-    any_move = False
+    any_split = False
     for where, cmds in cmdset:
         c2 = []
         for c in cmds:
-            if c.startswith("UID MOVE "):
-                any_move = True
-                c2 += ["MOVESTEP1 " + c[len("UID MOVE "):], "MOVESTEP2 " + c[len("UID MOVE "):]]
+            m = re.match(r"UID (COPY|MOVE) (\S+) (\S+)$", c)
+            if m:
+                any_split = True
+                c2 += [f"XREAD {m.group(2)} {m.group(3)}", "XADD", f"XDONE {m.group(1)}"]
             else:
                 c2.append(c)
         out.append((where, c2))
-    return out if any_move else None
+    return out if any_split else None
 
 
 def freeze(results, fs):
@@ -461,6 +516,12 @@ def run_shard(spec):
         rnd = rng(spec["seed"], "c10", k)
         cmdset = FORCED[k] if k < len(FORCED) else gen_set(rnd)
         cmdset = [(w, list(c)) for w, c in cmdset]
+        if any(c.startswith(("DELETE other", "RENAME other")) for _, cs in cmdset for c in cs):
+            # a session whose selected mailbox is deleted underneath may be told
+            # NO first and BYE later, or BYE at once: both are legal, so it
+            # gets one command only (the orders would otherwise differ in
+            # whether its later, mailbox-independent commands still run)
+            cmdset = [(w, c[:1] if w == "other" else c) for w, c in cmdset]
         try:
             cases += explore(spec, k, cmdset, counts, scratch, spec.get("nsched", 6), spec.get("systematic", 0) if k < len(FORCED) or k % 4 == 0 else 0)
         except Exception:
